@@ -26,6 +26,14 @@ class Ptr:
     def __init__(self, case, conv=1, judge_shifted=False):
         self.sp = C.Spec(case); self.conv = conv; self.judge_shifted = judge_shifted
         self.ptr = {r: self.sp.foff for r in self.sp.raw}
+        self.lookback = 10        # GD_DEFAULT_LOOKBACK
+
+    def kinds(self, f):
+        sp = self.sp
+        if f in sp.raw: return set()
+        g = sp.der[f]; kd = g["kind"]
+        ins = [g["a"], g["b"]] if kd == "M" else [g["in"], g["cnt"]] if kd in "XW" else [g["in"]]
+        return {kd}.union(*[self.kinds(x) for x in ins])
 
     def minpos(self, f, p):
         """smallest position any field on the way down is asked to take (the code rejects negatives)"""
@@ -63,11 +71,18 @@ class Ptr:
                     elif p is not None and p >= 0: s = p
                 if s is not None and s >= 0:
                     w = sp.window(f, s, n)
-                    if st == "H": exp = ("D " + " ".join(str(v) for v in w)).strip()
-                    ok = got == ("D " + " ".join(str(v) for v in w)).strip()
+                    # (an MPLEX read with a limited look-back may start with another value than the whole-field
+                    # contents say: its values are C02's business under GD_LOOKBACK_ALL, its pointers are judged here)
+                    if st == "H" and not (self.lookback != -1 and "X" in self.kinds(f)):
+                        exp = ("D " + " ".join(str(v) for v in w)).strip()
                     if n > 0:
-                        for r, sh in sp.inputs(f):
-                            self.ptr[r] = (s + sh + len(w)) if (ok and len(w) > 0 and len(sp.inputs(f)) == 1) else None
+                        # gd_getdata(3): the pointer of the field -- of every RAW field it reads -- is left after the
+                        # last sample returned, however many inputs the field has and whatever its values are
+                        m = len(got.split()) - 1 if got.startswith("D") else 0
+                        ins = sp.inputs(f)
+                        once = len(set(r for r, _ in ins)) == len(set(ins))      # no RAW field read at two different shifts
+                        for r, sh in ins:
+                            self.ptr[r] = (s + sh + m) if (m > 0 and once and m == len(w)) else None
                 elif n > 0 and exp is None:
                     for r, sh in sp.inputs(f): self.ptr[r] = None
             elif k == "s":
@@ -88,6 +103,8 @@ class Ptr:
                 elif p is not None: exp = "P %d" % p
             elif k in "cf":
                 for r in (sp.raw if o[1] == "*" else [x for x, _ in sp.inputs(o[1])]): self.ptr[r] = sp.foff
+            elif k == "k":
+                self.lookback = o[1]
             if exp is not None and exp != got: bad.append((i, exp, got))
             if i > 0 and k not in "cfx":
                 for r in sp.raw:
@@ -103,11 +120,22 @@ def gen_case(rng):
     # under an open limit a two-input field may have one input auto-closed while the other is being
     # asked (time(NULL)-dependent, inside one call): no limit in histories with MULTIPLY fields
     ops = [o for o in case["ops"] if o[0] == "l" and not any(f["kind"] in "MXW" for f in case["derived"])]
-    if any(f["kind"] == "X" for f in case["derived"]): ops.append(("k", -1))
+    # MPLEX: every look-back setting (none, a few periods, the default, all); the pointers after a read do not
+    # depend on whether the look-back found the count value, came back empty or was answered from the cache
+    if any(f["kind"] == "X" for f in case["derived"]):
+        lb = rng.choice([-1, -1, 0, 1, 3, 10, None])
+        if lb is not None: ops.append(("k", lb))
+    multi = [f["name"] for f in case["derived"] if f["kind"] in "MXW"]
     for _ in range(rng.randint(5, 40)):
-        f = rng.choice(fields); e = sp.eof(f); b = sp.bof(f); u = rng.random()
+        f = rng.choice(fields + multi); e = sp.eof(f); b = sp.bof(f); u = rng.random()
         inside = lambda: rng.randint(min(b, e), max(b, e))
-        if u < 0.3: ops.append(("g", f, "H" if rng.random() < 0.6 else inside(), rng.choice([1, 2, 3, 8, 40]), "i64"))
+        if u < 0.3:
+            ops.append(("g", f, "H" if rng.random() < 0.6 else inside(), rng.choice([1, 2, 3, 8, 40]), "i64"))
+            if f in multi and rng.random() < 0.7:
+                # where is every input now, and the field itself
+                for r in sorted(set(x for x, _ in sp.inputs(f))): ops.append(("t", r))
+                ops.append(("t", f))
+                if rng.random() < 0.5: ops.append(("g", f, "H", rng.choice([1, 2, 5]), "i64"))
         elif u < 0.6:
             w = rng.choice("SSSCE")
             ops.append(("s", f, inside() if w == "S" else rng.randint(-4, 4) if w == "C" else -rng.randint(0, 9), w))
@@ -133,6 +161,7 @@ def put_here_cases(rng, n):
 
 
 OOP = ("gzip", "bzip2", "lzma")
+QUERY_KEY = "C17/query/gd_eof-gd_nframes-reset-the-pointer-of-a-field-open-for-writing"
 
 
 def gen_write_history(rng):
@@ -150,7 +179,7 @@ def gen_write_history(rng):
     base = [(7 * k) % 251 for k in range(ln)]
     data = list(base)        # samples from FO on
     ptr = FO                 # the field's I/O pointer by the rules
-    steps = []
+    steps = []; after_query = set()
     nv = [0]; wrote = False
 
     def vals(k):
@@ -179,12 +208,17 @@ def gen_write_history(rng):
             if enc in OOP and t - FO > len(data): data.extend([0] * (t - FO - len(data)))
             steps.append(("t a", "t %d 0" % ptr))
             if rng.random() < 0.3: steps.append(("t l", "t %d 0" % ptr))
-            if rng.random() < 0.8:
+            # (.sie: a write-mode seek to the very end that no write follows leaves a placeholder record -- C18's finding)
+            if rng.random() < 0.8 or (enc == "sie" and t == eof):
                 vs = vals(k)
                 steps.append(("p a H %d u8 %s" % (k, " ".join(map(str, vs))), "p %d 0" % k)); put(t, vs); ptr = t + k
                 steps.append(("t a", "t %d 0" % ptr))
-        elif u < 0.93 and not wrote:
-            steps.append(("e a", "e %d 0" % eof))
+        elif u < 0.93:
+            # a query (gd_eof, gd_nframes) in the middle of the writes: it reports the data written so far
+            # and leaves the pointer alone
+            if rng.random() < 0.6: steps.append(("e a", "e %d 0" % eof))
+            else: steps.append(("n", "n %d 0" % (fo + len(data) // spf)))
+            steps.append(("t a", "t %d 0" % ptr)); after_query.add(len(steps) - 1)
         else:
             steps.append((rng.choice(["c a", "f a"]), None)); ptr = FO
             steps.append(("t a", "t %d 0" % ptr))
@@ -193,7 +227,7 @@ def gen_write_history(rng):
     steps.append(("e a", "e %d 0" % len(full)))
     steps.append(("g a 0 %d u8" % (len(full) + 20), ("g %d 0 %s" % (len(full), " ".join(map(str, full)))).strip()))
     case = dict(enc=enc, spf=spf, foff=fo, raws=[dict(name="a", type="UINT8", vals=base)],
-                derived=[dict(name="l", kind="L", m=1, b=0, **{"in": "a"})], ops=[])
+                derived=[dict(name="l", kind="L", m=1, b=0, **{"in": "a"})], ops=[], after_query=sorted(after_query))
     return case, steps
 
 
@@ -202,8 +236,13 @@ def run_write_history(exe, d, case, steps):
     C.make_dirfile(d, case)
     rc, out = vlib.sh([exe, d], inp=("\n".join(["o 1"] + [s for s, _ in steps]) + "\n").encode(), timeout=20)
     lines = out.strip().split("\n")[1:]
+    FO = case["foff"] * case["spf"]
     for i, ((s, exp), got) in enumerate(zip(steps, lines)):
-        if exp is not None and got.strip() != exp: return (i, s, exp, got.strip()), lines
+        if exp is not None and got.strip() != exp:
+            if i in case["after_query"] and got.strip() == "t %d 0" % FO and steps[i - 1][1] == lines[i - 1].strip():
+                # the listed finding: the query answered correctly but sent the pointer back to the beginning
+                return (i, steps[i - 1][0] + "; " + s, exp, got.strip(), QUERY_KEY), lines
+            return (i, s, exp, got.strip()), lines
     if len(lines) != len(steps): return (len(lines), "-", "an answer", "process died rc=%s %s" % (rc, out[-200:].replace("\n", " "))), lines
     return None, lines
 
@@ -314,17 +353,20 @@ def main():
             break
 
     # 3b. write histories: gaps, write-mode seeks back to every interesting position, GD_HERE writes, on all encodings
-    nwh = 0; wh_bad = None
+    nwh = 0; wh_bad = None; wh_known = None
     for it in range(250 if not chk.thorough else 5000):
         case, steps = gen_write_history(rng)
         bw, lines = run_write_history(exe, os.path.join(work, "wh"), case, steps)
         nwh += 1; evals += len(lines)
-        if bw and wh_bad is None: wh_bad = (case, steps, bw, lines)
+        if bw and len(bw) == 5:
+            if wh_known is None: wh_known = (case, steps, bw[:4], lines)
+        elif bw and wh_bad is None: wh_bad = (case, steps, bw, lines)
     chk.cov["write_histories"] = nwh
-    if wh_bad:
-        case, steps, (i, call, exp, got), lines = wh_bad
-        found_any = True
-        chk.violation("C17/write-history/%s" % case["enc"], "%s spf %d frameoffset %d, %d samples: after %s the call `%s` answers `%s`, the pointer rules say `%s`" % (
+    for key, wb in ((QUERY_KEY, wh_known), (None, wh_bad)):
+        if not wb: continue
+        case, steps, (i, call, exp, got), lines = wb
+        found_any = found_any or key is None
+        chk.violation(key or "C17/write-history/%s" % case["enc"], "%s spf %d frameoffset %d, %d samples: after %s the call `%s` answers `%s`, the pointer rules say `%s`" % (
             case["enc"], case["spf"], case["foff"], len(case["raws"][0]["vals"]), [s_ for s_, _ in steps[:i]], call, got[:100], exp[:100]),
             {"kind": "impl-vs-spec", "case": case, "calls": ["o 1"] + [s_ for s_, _ in steps[:i + 1]], "answers": lines[:i + 1], "expected": exp, "got": got,
              "how": "checks/C02.py make_dirfile(case) + harness/C02/gdhist.c fed with `calls`"})
